@@ -210,11 +210,12 @@ AXES = ["self", "child", "attribute", "parent", "ancestor", "ancestor-or-self", 
 
 class Gen:
     def __init__(self, rng, names=("a", "b", "c"), attrs=("x", "y", "id"), strs=("t", "u", "1", "2", " ", ""),
-                 vars_=None, pis=("t", "u"), nsmap=None):
+                 vars_=None, pis=("t", "u"), nsmap=None, keys=()):
         self.r = rng
         self.names, self.attrs, self.strs, self.pis = names, attrs, strs, pis
         self.vars = vars_ or {}      # name -> type
         self.nsmap = nsmap or {}     # prefix -> uri usable in name tests
+        self.keys = list(keys)       # names of declared xsl:key (stylesheet context only)
 
     def test(self, axis):
         r = self.r.random()
@@ -281,6 +282,9 @@ class Gen:
         if r < 0.93 and nsvars:
             return var(self.r.choice(nsvars))
         if r < 0.97:
+            if self.keys and self.r.random() < 0.6:
+                arg = lit(self.r.choice(["1", "2", "t", "", "u", "a", "b"])) if self.r.random() < 0.6 else self.ns(d - 1)
+                return fn("key", lit(self.r.choice(self.keys)), arg)
             return fn("id", self.str_(d - 1) if self.r.random() < 0.7 else self.ns(d - 1))
         return path([], abs_=True)
 
